@@ -1,5 +1,6 @@
 import Gengo.Model.Camel
 import Gengo.Model.TypeRef
+import Gengo.Model.Namer
 import Gengo.Model.Template
 import Gengo.Model.Tags
 import Gengo.Model.Sprintf
@@ -412,6 +413,31 @@ def run (f5 f6 : Bool) (toks : List String) : String :=
 end C09Drv
 
 
+namespace C15Drv
+open TypeRef
+def sortByStr {α} (key : α → List Char) (l : List α) : List α :=
+  l.mergeSort fun a b => decide (String.ofList (key a) ≤ String.ofList (key b))
+
+def trackerCfg (fx : String → Bool) : Tracker.Cfg :=
+  if fx "F8" then LocalName.cfgF stdTab true else LocalName.cfgP stdTab true
+
+def showImports (t : Tracker.Tracker) : String :=
+  String.intercalate "," ((sortByStr (·.1) t.p2n).map fun e => hex e.1 ++ "=" ++ hex e.2)
+
+/-- `tname <self> {<pkg> <name>}*`: render the references in order through one namer -/
+def runNames (fx : String → Bool) (self : String) (refs : List String) : String :=
+  let c := trackerCfg fx
+  let rec go : List String → Tracker.Tracker → List String → Option (List String × Tracker.Tracker)
+    | p :: n :: r, t, out => (match nameOf (fx "F4") c (unhex self) t (unhex p) (unhex n) with
+      | none => none
+      | some (nm, t') => go r t' (hex nm :: out))
+    | _, t, out => some (out.reverse, t)
+  match go refs Tracker.empty [] with
+  | none => "panic"
+  | some (names, t) => "ok " ++ String.intercalate "," names ++ " imports " ++ showImports t
+end C15Drv
+
+
 def handle (fx : String → Bool) (line : String) : String :=
   let fxB := fx "all"
   let fx1 := if fxB then "1" else "0"
@@ -421,9 +447,16 @@ def handle (fx : String → Bool) (line : String) : String :=
   | "snip" :: toks => C09Drv.run (fx "F5") (fx "F6") toks
   | ["tref", h] =>
     let s := unhex h
-    (match TypeRef.parse fxB (s.length + 2) s with
+    (match TypeRef.parse (fx "F4") (s.length + 2) s with
      | none => "err"
      | some t => "ok " ++ hex t.print)
+  | ["tsplit", h] =>
+    let s := unhex h
+    "ref=" ++ (match TypeRef.parseRef s with
+      | some (p, n) => hex p ++ "," ++ hex n
+      | none => "err") ++
+    " pie=" ++ (let r := TypeRef.pkgImportPathAndExpose s; hex r.1 ++ "," ++ hex r.2)
+  | "tname" :: self :: refs => C15Drv.runNames fx self refs
   | ["tmpl", h] =>
     (match Template.render tmplEnv fxB (unhex h) with
      | none => "panic"
